@@ -86,23 +86,30 @@ Definition lvl (t : table) (o : binop) : nat := lvl_from 1 t o.
 
 Definition table_total (t : table) : bool := forallb (fun o => 1 <=? lvl t o) all_binops.
 
-(* the ladder of the pinned tree (expression_parser.cpp at commit fff2972): == != share
-   parseComparison with < <= > >= *)
-Definition pinned_table : table :=
-  [[Or]; [And]; [BOr]; [BXor]; [BAnd]; [EqO; NeO; LtO; LeO; GtO; GeO]; [Shl; Shr]; [Add; Sub];
-   [Mul; Div; Mod]].
-
 (* docs/spec.md:309 and docs/BNF.md:407 (lowest first) *)
 Definition spec_table : table :=
   [[Or]; [And]; [BOr]; [BXor]; [BAnd]; [EqO; NeO]; [LtO; LeO; GtO; GeO]; [Shl; Shr]; [Add; Sub];
    [Mul; Div; Mod]].
 
+(* the ladder the model (and the extracted driver) is pinned to: since fix 4d0a4b7 (parseRelational
+   split off parseComparison) it is the documented table *)
+Definition pinned_table : table := spec_table.
+
+(* the ladder before 4d0a4b7 (== != on the relational level); kept for the record and for the mutant
+   that reverts the repair *)
+Definition old_table : table :=
+  [[Or]; [And]; [BOr]; [BXor]; [BAnd]; [EqO; NeO; LtO; LeO; GtO; GeO]; [Shl; Shr]; [Add; Sub];
+   [Mul; Div; Mod]].
+
 (* ------------------------------------------------------------------ look-aheads *)
-(* primary_expression_parser.cpp:364-385: after `ident <`, skip to the matching `>` counting only
-   TOK_LT / TOK_GT, over the rest of the FILE; a call iff the next token is `(` *)
+(* primary_expression_parser.cpp, generic-call look-ahead after `ident <` (since fix 9bd33cd): skip to
+   the matching `>` counting only TOK_LT / TOK_GT, but give up (it is the comparison operator) at the
+   first token that cannot occur in a type-argument list: ; ( ) { } = + - && || .  A call iff `(`
+   follows the matching `>`. *)
 Fixpoint generic_scan (depth : nat) (ts : list tok) : bool :=
   match ts with
   | [] => false
+  | (TSemi | TLP | TRP | TRBrace | TAsg None | TOp Add | TOp Sub | TOp And | TOp Or) :: _ => false
   | TOp LtO :: r => generic_scan (S depth) r
   | TOp GtO :: r =>
       match depth with
@@ -168,15 +175,22 @@ Fixpoint ty_stars (acc : list tok) (ts : list tok) : option (list tok * list tok
   | TOp Mul :: r => ty_stars (acc ++ [TOp Mul]) r
   | _ => ty_refs acc ts
   end.
-(* primary_expression_parser.cpp:531-575: `(` was consumed; a cast iff the next token is an
-   identifier, parseType succeeds and `)` follows.  Returns the type and the tokens after `)`. *)
+(* the model's identifiers are variables and functions: none of them is a typedef / struct / enum /
+   union / interface name or a type parameter *)
+Definition names_type (x : nat) : bool := false.
+
+(* primary_expression_parser.cpp, cast-vs-parenthesis look-ahead (since fix 34a2124): `(` was consumed;
+   `( identifier ...` is tried as a type only if the identifier names a type (may_be_type); then a
+   cast iff parseType succeeds and `)` follows.  Returns the type and the tokens after `)`. *)
 Definition cast_type (ts : list tok) : option (list tok * list tok) :=
   match ts with
   | TId x :: r =>
-      match ty_stars [TId x] r with
-      | Some (ty, TRP :: r') => Some (ty, r')
-      | _ => None
-      end
+      if names_type x then
+        match ty_stars [TId x] r with
+        | Some (ty, TRP :: r') => Some (ty, r')
+        | _ => None
+        end
+      else None
   | _ => None
   end.
 
@@ -469,18 +483,8 @@ Fixpoint wf (e : expr) : bool :=
   | EProp _ | Cast _ _ | Generic _ _ => false
   end.
 
-(* operands that `( ... )` would turn into a cast on the pinned tree (finding C02-paren-ident-cast):
-   x, x[1], x[i], x[1][j] ... *)
-Fixpoint typelike (e : expr) : bool :=
-  match e with
-  | Var _ => true
-  | Idx a i => typelike a && match i with Num _ | Var _ => true | _ => false end
-  | _ => false
-  end.
-
-(* every operand in explicit parentheses ("fully parenthesised"), except literals and the
-   type-like operands above, which stay bare *)
-Definition atomic (e : expr) : bool := match e with Num _ => true | _ => typelike e end.
+(* every operand in explicit parentheses ("fully parenthesised"); literals and identifiers stay bare *)
+Definition atomic (e : expr) : bool := match e with Num _ | Var _ => true | _ => false end.
 Definition wrap (e : expr) : expr := if atomic e then e else Par e.
 Fixpoint full (e : expr) : expr :=
   match e with
@@ -505,20 +509,19 @@ Fixpoint full (e : expr) : expr :=
 (* ------------------------------------------------------------------ hazards of the primary level *)
 Definition is_id (t : tok) : bool := match t with TId _ => true | _ => false end.
 
-(* [safeb prev ts]: no token position of the stream trips one of the two look-aheads of
-   parsePrimary.  prev = the previous token is an identifier (then `(` opens a call, not a
-   primary).  `( type-shaped )` is the cast look-ahead (finding #36), `ident < ... > (` the
-   generic-call look-ahead (findings #37/#38). *)
-Fixpoint safeb (prev : bool) (ts : list tok) : bool :=
+(* [safeb ts]: no `identifier <` of the stream trips the generic-call look-ahead of parsePrimary, i.e.
+   no `ident < (tokens that may occur in type arguments) > (` (known finding C02-generic-lookahead:
+   at parse time nothing tells a generic function name from a variable).  The cast look-ahead
+   (former finding C02-paren-ident-cast) cannot fire on a non-type identifier any more. *)
+Fixpoint safeb (ts : list tok) : bool :=
   match ts with
   | [] => true
   | t :: r =>
       negb (match t with
-            | TLP => if prev then false else match cast_type r with Some _ => true | None => false end
             | TId _ => match r with TOp LtO :: r1 => generic_scan 1 r1 | _ => false end
             | _ => false
             end)
-      && safeb (is_id t) r
+      && safeb r
   end.
 
 (* the generator's syntactic avoidance for the generic look-ahead: no `>` directly before `(` *)
